@@ -433,7 +433,13 @@ def advances_of(ctx: Ctx, f, counter, loop):
         if p.term == "raise":
             raises.append((cond, body[-1].node if body else None))
             continue
-        key = " + ".join(sorted(pr.show(a.value) for a in adds)) if adds else "0"
+        # the increment as it is on *this* path: a conditional value whose test the path condition decides is the selected arm
+        def _on_path(v: ast.AST) -> ast.AST:
+            try:
+                return pr.resolve_under(v, pr._bool(cond)) if cond is not None and any(isinstance(n, ast.IfExp) for n in ast.walk(v)) else v
+            except Exception:
+                return v
+        key = " + ".join(sorted(pr.show(_on_path(a.value)) for a in adds)) if adds else "0"
         incs.setdefault(key, []).append(cond)
         for se in body:
             for c in calls_in(se.node):
